@@ -119,6 +119,19 @@ def scenarios(ctx, pid):
                 continue
             r = recorder(n, m, ev)
             xs = special_xs(rng, n, m, 40 * scale)
+            # the two ends of [0, 1], always: the first subintervals and the last few dozen (whatever is special about x near 0 or near 1 -
+            # end-point tests with a tolerance, the last digit - shows there and only there)
+            tot = 2 ** (n * m)
+            ends = [i for i in list(range(0, 6)) + list(range(tot - 40, tot)) if 0 <= i < tot]
+            for i in sorted(set(ends)):
+                xl, xr = i / tot, math.nextafter((i + 1) / tot, 0.0)
+                if pid == "C07":
+                    r.image(xl), r.image(xr)
+                elif pid == "C08":
+                    if i + 1 < tot:
+                        r.adjacent(i)
+                elif pid == "C09":
+                    r.roundtrip(rng.choice([xl, xr]), via=rng.choice(["inv", "pre"]))
             if pid == "C07":
                 for x in xs:
                     r.image(x)
